@@ -283,7 +283,7 @@ class Project:
         self.globals = {}     # qualified name -> (tu, node) preferring the one with init
 
     def add_tu(self, rel):
-        src = os.path.join(self.repo, rel)
+        src = rel if os.path.isabs(rel) else os.path.join(self.repo, rel)
         if not os.path.exists(src):
             brk('translation unit %s does not exist' % rel)
         filts = self.filt if isinstance(self.filt, (list, tuple)) else [self.filt]
@@ -650,6 +650,19 @@ class Emitter:
 
 
 class FuncEmitter:
+    _discard_id = None
+
+    def assign(self, n, l, r):
+        """C++ assignment expression l = r (an lvalue in C++); l is evaluated exactly once"""
+        if n is not None and n.get('id') == self._discard_id:
+            return '(%s = %s)' % (l, r)
+        a = addr(l)
+        if re.fullmatch(r'\(?&?[A-Za-z_][A-Za-z_0-9]*(->[A-Za-z_][A-Za-z_0-9]*|\.[A-Za-z_][A-Za-z_0-9]*)*\)?', a):
+            return deref('(%s = %s, %s)' % (l, r, a))
+        tp = self.new_tmp('void *')
+        ct = None
+        brk('assignment used as an lvalue with a complex left-hand side is not supported: %s' % l[:80])
+
     def __init__(self, em, tu, f, lambda_ctx=None):
         self.em = em
         self.tu = tu
@@ -822,6 +835,11 @@ class FuncEmitter:
         return self.em.opts.get('exceptions', False)
 
     def ret_dummy(self):
+        if 'noexcept' in self.f['type']['qualType'] and 'noexcept(false)' not in self.f['type']['qualType']:
+            return '{ __CPROVER_assert(0, "noexcept: an exception escapes %s (std::terminate)"); __CPROVER_assume(0); %s }' % (self.f.get('name'), self.ret_dummy0())
+        return self.ret_dummy0()
+
+    def ret_dummy0(self):
         if self.is_ctor:
             return 'return self_;'
         rt = self.em.ctype(self.ret)
@@ -837,7 +855,7 @@ class FuncEmitter:
         self.em.node_kinds.add(k)
         m = getattr(self, 's_' + k, None)
         if m is None:
-            if k.endswith('Expr') or k.endswith('Operator') or k.endswith('Literal'):
+            if hasattr(self, 'e_' + k):
                 return self.expr_stmt(n)
             brk('%s: unsupported statement kind %s at line %s' % (self.f.get('name'), k, n.get('_begin')))
         return m(n)
@@ -956,9 +974,20 @@ class FuncEmitter:
         name = 'sb%d' % em.tmp_counter
         d['_cname'] = name
         init = None
+        bidx = 0
         for c in d.get('inner', []):
             if c.get('kind') == 'BindingDecl':
-                self.bindings[c['id']] = c['inner'][0]
+                b = c['inner'][0]
+                if b.get('kind') == 'DeclRefExpr' and b['referencedDecl']['kind'] == 'VarDecl' and b['referencedDecl']['id'] not in self.tu.by_id:
+                    # tuple-like decomposition (std::pair): clang binds to hidden holding variables initialised with get<i>()
+                    bt = t.strip_ref()
+                    if bt.name != 'std::pair':
+                        brk('structured binding of tuple-like type %r' % bt)
+                    ft = bt.args[bidx]
+                    self.bindings[c['id']] = ('field', d, ('first', 'second')[bidx], ft.is_ref())
+                else:
+                    self.bindings[c['id']] = b
+                bidx += 1
             elif not c.get('kind', '').endswith('Attr'):
                 init = c
         self._stmt_may_throw = False
@@ -1113,6 +1142,11 @@ class FuncEmitter:
 
     # ------------------------------------------------------------ expressions
     def expr(self, n, discard=False):
+        if discard:
+            x = n
+            while x.get('kind') in ('ExprWithCleanups', 'ParenExpr'):
+                x = x['inner'][0]
+            self._discard_id = x.get('id')
         k = n.get('kind')
         self.em.node_kinds.add(k)
         m = getattr(self, 'e_' + k, None)
@@ -1248,6 +1282,12 @@ class FuncEmitter:
             b = self.bindings.get(r['id'])
             if b is None:
                 brk('unknown binding %s' % r.get('name'))
+            if isinstance(b, tuple):
+                dd = b[1]
+                dt = self.em.ty_of(dd['type'], self.scope)
+                base = deref(dd['_cname']) if dt.is_ref() else dd['_cname']
+                e = '%s.%s' % (paren_lv(base), b[2])
+                return deref(e) if b[3] else e
             return self.expr(b)
         if k == 'EnumConstantDecl':
             d = self.tu.by_id.get(r['id'])
@@ -1629,8 +1669,7 @@ class FuncEmitter:
             if (f.get('isImplicit') or f.get('explicitlyDefaulted')) and f.get('name') == 'operator=':
                 l = self.expr(args[0])
                 rr = self.expr(args[1])
-                e = '(%s = %s)' % (l, rvalue(rr))
-                return mark_lv(e) if False else deref('(%s = %s, %s)' % (l, rvalue(rr), addr(l)))
+                return self.assign(n, l, rr)
             self_arg = addr(self.expr(args[0]))
             return self.call_function(m, ftu, f, args[1:], self_arg)
         return self.call_function(m, ftu, f, args, None)
